@@ -162,3 +162,171 @@ func (res *Result) PipeCase(gkey string) (term string, stats map[string]int, ok 
 	}
 	return fmt.Sprintf("mkCase %s %s %s %s [\n  %s]", cfg, vh.Z(res.Sc.Retention), vh.Z(res.T0), vh.List(lbl), strings.Join(parts, ";\n  ")), stats, true
 }
+
+// InhPipeCase renders one group's run as a case of the product of the INHIBITOR model with the group model
+// (Model/MutePipe.v instantiated in Run/InhPipeRun.v): every published alert (of ANY group: the inhibitor sees them all)
+// is an operation OProcess of the inhibitor, a flush becomes MTick with only the ids muted by the OTHER stages (the model
+// computes the inhibited ones from its own rule caches), every other event is the group event wrapped in MGrp.
+// The inhibitor's GC is not an event: by c03_verdict_depends_only_on_firing it cannot change a verdict.
+// ok=false when a publication and a flush of this group fall on the same virtual instant (the inhibitor's subscription
+// and the dispatcher run on different goroutines: whether the inhibitor had the update at the flush is not observable).
+func (res *Result) InhPipeCase(gkey string) (term string, stats map[string]int, ok bool) {
+	g := res.Groups[gkey]
+	stats = map[string]int{}
+	var evs []evt
+	lastFor := map[int]int{}
+	pendingRec := map[int]bool{}
+	gci := 0
+	flushGC := func(upto int64) {
+		for gci < len(res.GCs) && res.GCs[gci] <= upto {
+			evs = append(evs, evt{t: res.GCs[gci], ev: "MGrp ENflogGC"})
+			gci++
+		}
+	}
+	silAt := map[int64]bool{}
+	flushAt := map[int64]bool{}
+	grp := func(s string) string { return "MGrp (" + s + ")" }
+	for _, r := range res.Recs {
+		flushGC(r.T - 1)
+		switch r.Kind {
+		case "publish":
+			a := r.Alerts[0]
+			id := res.idOf(a.Labels)
+			evs = append(evs, evt{t: r.T, ev: "MOp (OProcess " + vh.App("Inhibit.mkA", res.lblTerm(id), vh.Z(a.Starts), vh.Z(a.Ends), vh.Z(a.Updated)) + ")"})
+			silAt[r.T] = true
+			stats["inhibitor-update"]++
+			member := false
+			for _, k := range res.member[id] {
+				if k == gkey {
+					member = true
+				}
+			}
+			if !member {
+				continue
+			}
+			evs = append(evs, evt{t: r.T, ev: grp(vh.App("EInsert", vh.App("mkA", vh.Z(int64(id)), vh.Z(a.Starts), vh.Z(a.Ends), vh.Z(a.Updated))))})
+			stats["insert"]++
+		case "flush":
+			if r.GKey != gkey {
+				continue
+			}
+			var other []int
+			nsil := 0
+			for i, o := range r.Alerts {
+				sild := i < len(r.Inhibited) && r.Inhibited[i]
+				if sild {
+					nsil++
+				}
+				if r.Suppressed[i] && !sild {
+					other = append(other, res.idOf(o.Labels))
+				}
+			}
+			sort.Ints(other)
+			evs = append(evs, evt{t: r.T, ev: vh.App("MTick", vh.Z(r.Tau), vh.ListOf(other, func(i int) string { return vh.Z(int64(i)) })), outs: []string{vh.App("OFlush", res.falerts(r.Alerts, nil))}})
+			flushAt[r.T] = true
+			stats["tick"]++
+			if nsil > 0 {
+				stats["tick-with-inhibited-alert"]++
+			}
+			if nsil > 0 && nsil < len(r.Alerts) {
+				stats["tick-with-inhibited-and-uninhibited"]++
+			}
+			pendingRec = map[int]bool{}
+		case "query":
+			if r.GKey != gkey || r.Recv != g.Receiver || r.I >= len(g.Ints) {
+				continue
+			}
+			evs = append(evs, evt{t: r.T, ev: grp(vh.App("EDedup", vh.Nat(r.I)))})
+			lastFor[r.I] = len(evs) - 1
+		case "notify":
+			if r.GKey != gkey {
+				continue
+			}
+			evs = append(evs, evt{t: r.T, ev: grp(vh.App("EAttempt", vh.Nat(r.I), outcomeCoq[r.Outcome])),
+				outs: []string{vh.App("ONotify", vh.Nat(r.I), reasonCoq[r.Reason], res.falerts(r.Alerts, nil), outcomeCoq[r.Outcome])}})
+			lastFor[r.I] = len(evs) - 1
+			pendingRec[r.I] = r.Outcome == sim.Recoverable
+			stats["attempt-"+r.Outcome.String()]++
+		case "log":
+			if r.GKey != gkey {
+				continue
+			}
+			if k, ok := lastFor[r.I]; ok {
+				evs[k].outs = append(evs[k].outs, vh.App("OLog", vh.Nat(r.I), res.hashIDs(r.Firing), res.hashIDs(r.Resolved), vh.Z(r.T)))
+			}
+		case "merge":
+			if r.GKey != gkey || r.Recv != g.Receiver || r.I >= len(g.Ints) {
+				continue
+			}
+			evs = append(evs, evt{t: r.T, ev: grp(vh.App("ENflogMerge", vh.Nat(r.I), vh.App("mkN", res.hashIDs(r.Firing), res.hashIDs(r.Resolved), vh.Z(r.Ts), vh.Z(r.Exp))))})
+		case "load":
+			if r.GKey != gkey || r.Recv != g.Receiver || r.I >= len(g.Ints) {
+				continue
+			}
+			evs = append(evs, evt{t: r.T, ev: grp(vh.App("ENflogLoad", vh.Nat(r.I), vh.App("mkN", res.hashIDs(r.Firing), res.hashIDs(r.Resolved), vh.Z(r.Ts), vh.Z(r.Exp))))})
+		case "flushend":
+			if r.GKey != gkey {
+				continue
+			}
+			for i := range g.Ints {
+				if pendingRec[i] {
+					evs = append(evs, evt{t: r.T, ev: grp(vh.App("ECtxDone", vh.Nat(i)))})
+				}
+			}
+			evs = append(evs, evt{t: r.T, ev: "MGrp EFlushEnd", outs: []string{vh.App("OFlushEnd", vh.Bool(r.Ok))}})
+		}
+	}
+	flushGC(res.TEnd)
+	evs = append(evs, evt{t: res.TEnd, ev: "MGrp EEnd"})
+	sort.SliceStable(evs, func(i, j int) bool { return evs[i].t < evs[j].t })
+	for t := range silAt {
+		if flushAt[t] {
+			return "", stats, false
+		}
+	}
+	var ints []string
+	for _, ij := range g.Ints {
+		ints = append(ints, vh.App("mkI", vh.Bool(ij.SendResolved)))
+	}
+	cfg := vh.App("mkG", vh.Z(g.GW), vh.Z(g.GI), vh.Z(g.RI), vh.Z(g.Timeout+res.Wait), vh.Z(res.Sc.Retention), vh.List(ints))
+	// the label set of every alert id
+	var lbl []string
+	for i, ls := range res.Sc.LabelSets {
+		var kv []string
+		for _, k := range vh.SortedKeys(ls) {
+			kv = append(kv, vh.Pair(vh.Str(k), vh.Str(ls[k])))
+		}
+		lbl = append(lbl, vh.Pair(vh.Z(int64(res.IDOf[lsKey(toLS(ls))])), vh.List(kv)))
+		_ = i
+	}
+	parts := make([]string, len(evs))
+	for i, e := range evs {
+		parts[i] = fmt.Sprintf("(%s, %s, %s)", vh.Z(e.t), e.ev, vh.List(e.outs))
+	}
+	var rules []string
+	for _, ir := range res.Sc.Inhibit {
+		ms := func(m map[string]string) string {
+			var out []string
+			for _, k := range vh.SortedKeys(m) {
+				out = append(out, vh.App("mkM", "MEq", vh.Str(k), vh.Str(m[k])))
+			}
+			return vh.List(out)
+		}
+		rules = append(rules, vh.App("mkRule", ms(ir.Src), ms(ir.Tgt), vh.ListOf(ir.Equal, vh.Str)))
+	}
+	return fmt.Sprintf("mkCase %s %s %s %s [\n  %s]", cfg, vh.Z(res.T0), vh.List(rules), vh.List(lbl), strings.Join(parts, ";\n  ")), stats, true
+}
+
+// lblTerm renders the label set of alert id as a Coq list of pairs (sorted by name).
+func (res *Result) lblTerm(id int) string {
+	for _, ls := range res.Sc.LabelSets {
+		if res.IDOf[lsKey(toLS(ls))] == id {
+			var kv []string
+			for _, k := range vh.SortedKeys(ls) {
+				kv = append(kv, vh.Pair(vh.Str(k), vh.Str(ls[k])))
+			}
+			return vh.List(kv)
+		}
+	}
+	return "[]"
+}
